@@ -135,7 +135,8 @@ class TextualDataType(BaseDataType):
                 (encoding_chars['REPETITION'], '{esc}R{esc}'.format(esc=escape_char)),)
 
     def _get_escape_char_regex(self, escape_char):
-        return r'(?<!%s[HNFSTRE])%s(?![HNFSTRE]%s)' % tuple(3 * [re.escape(escape_char)])
+        # matches, from left to right, either a whole escape sequence (group 1) or a lone escape char
+        return r'(%s[HNFSTRE]%s)|%s' % tuple(3 * [re.escape(escape_char)])
 
     def _escape_value(self, value, encoding_chars=None):
         escape_char = encoding_chars['ESCAPE']
@@ -174,11 +175,11 @@ class TextualDataType(BaseDataType):
         # Escapes the escape_char. If it is found in other escape sequences it is not escaped.
         # For example if the escape char is / and we find /H/ the escape chars are not re-escaped,
         # otherwise it would become /E/H/E/ which is not the result wanted.
-        # Thus the regex search for escape chars not followed and not preceeded by one of the litteral
-        # composing an escape sequence. We use lambda because otherwise the backslash sequence in the string
+        # Thus the regex consumes the escape sequences from left to right, leaving them untouched, and
+        # replaces any other escape char. We use lambda because otherwise the backslash sequence in the string
         # is processed (look for re.sub in python doc) and we don't want this
         value = re.sub(self._get_escape_char_regex(escape_char),
-                       lambda x: '{esc}E{esc}'.format(esc=escape_char), value)
+                       lambda x: x.group(1) or '{esc}E{esc}'.format(esc=escape_char), value)
 
         return value
 
